@@ -34,6 +34,7 @@ def with_parts(rng, cfg):
         cfg["res"] = [({(1,) + (0,) * (nv - 1): 1, (0,) * nv: -c0}, 0) for _ in cfg["res"]]
     if rng.random() < 0.25 and not cfg.get("obs", {}).get("arows"):
         cfg["het_c"] = prand(rng, nv, 2, 2) or {(0,) * nv: 3}
+        cfg["tmax"] = rng.choice([1.0, 2.0, 0.5, 3.0])
     if rng.random() < 0.25 and not cfg.get("reweight"):
         cfg["omit_unit_weights"] = True           # weights equal to 1 are left to their documented default
         if not isinstance(cfg["w_dyn"], list) and rng.random() < 0.5:
